@@ -545,9 +545,11 @@ def decide_extra(ck, nm, work, xs, outs):
                 ck.violation("ModuleAnalyzer.AnalyzeProject (the way `pyscn check --select deps` runs it): %s"
                              % (r.get("project_error") or "modules %s, project %s" % (r.get("project_modules"), nodes)), replay)
                 continue
+            # the same graph as AnalyzeFiles: with the same options always, with other include options whenever every module
+            # directory has an __init__.py (Props/C12.v C12_include_options_irrelevant)
             same_opts = x["opts"] == dict(stdlib=False, third=False, rel=True, excl=[])
-            if pe != ie and (same_opts or not (ie - pe <= se and pe <= ie)):
-                ck.violation("AnalyzeProject and AnalyzeFiles give different graphs%s: %s" % (" with the same options" if same_opts else "", sorted(pe ^ ie)), replay)
+            if pe != ie and (same_opts or fam != "namespace"):
+                ck.violation("AnalyzeProject (options of `pyscn check`) and AnalyzeFiles give different graphs: %s" % sorted(pe ^ ie), replay)
                 continue
         pkgs = {".".join(pre + list(m["path"])) for m in mods if m["pkg"]}
         norm = lambda es: {(a, c) for (a, c) in es if not (a in pkgs and c.startswith(a + "."))} if "init-own-submodule" in old else es
